@@ -251,6 +251,38 @@ def rule_longindex(prog, fixture=False):
 
 
 # ---------------------------------------------------------------- R-C08-3
+def _is_unmoved_copy(fn, var_d, target_d, the_write):
+    """var is declared as `T *var = *target`, never reassigned, and `the_write` is the
+    only write to *target in the function: at the_write, var still equals *target."""
+    init = None
+    for n in fn.walk():
+        if n.get("k") == "VarDecl" and n.get("d") == var_d and n.get("c"):
+            init = n["c"][0]
+    if init is None:
+        return False
+    e, depth = _deref_chain(init)
+    if not (depth == 1 and e is not None and e.get("d") == target_d):
+        return False
+    for n in fn.walk():
+        if n is the_write:
+            continue
+        kk = n.get("k")
+        tgt = None
+        if kk == "UnaryOperator" and n.get("op") in ("++", "--"):
+            tgt = n["c"][0]
+        elif kk in ("BinaryOperator", "CompoundAssignOperator") and n.get("op") in flow.ASSIGN_OPS:
+            tgt = n["c"][0]
+        if tgt is None:
+            continue
+        t = strip_all(tgt)
+        if t is not None and t.get("k") == "DeclRefExpr" and t.get("d") == var_d:
+            return False
+        e2, d2 = _deref_chain(tgt)
+        if d2 == 1 and e2 is not None and e2.get("d") == target_d:
+            return False
+    return True
+
+
 def _deref_chain(e):
     """For **input / *p : returns the innermost pointer variable expression and depth."""
     e = strip_all(e)
@@ -348,6 +380,11 @@ def rule_cursor_discipline(prog, fixture=False):
                             if rhs.get("k") == "BinaryOperator" and rhs.get("op") in ("-", "+") and folded(rhs["c"][1]) is not None:
                                 e2, d2 = _deref_chain(rhs["c"][0])
                                 if d2 == 1 and e2 is not None and e2.get("d") == target_d:
+                                    return folded(rhs["c"][1]) * (1 if rhs["op"] == "+" else -1)
+                                # `*input = p + k` where p is a never-reassigned copy of *input taken while
+                                # *input had not been written yet (this assignment is its only write)
+                                if d2 == 0 and e2 is not None and e2.get("k") == "DeclRefExpr" and \
+                                        _is_unmoved_copy(fn, e2.get("d"), target_d, n):
                                     return folded(rhs["c"][1]) * (1 if rhs["op"] == "+" else -1)
                             return "?"
                     return 0
